@@ -56,6 +56,7 @@ type kvBackend struct {
 	seen    []string // version strings in order of first occurrence in outputs
 	issued  map[string]bool
 	cleanup func()
+	pendingMon [][2]string // monitor lines to emit after the current op line
 }
 
 func newKvBackend(kind string) *kvBackend {
@@ -163,6 +164,11 @@ func (b *kvBackend) fresh(ctx *Ctx, op, v string) {
 func (b *kvBackend) exec(ctx *Ctx, w []string) string {
 	c := context.Background()
 	switch w[0] {
+	case "subms":
+		us, _ := strconv.Atoi(w[2])
+		ctx.R.Nontrivial("sub-millisecond expiry via " + w[1])
+		b.pendingMon = append(b.pendingMon, [2]string{"mon C06-never-outlives-expiry", b.subms(w[1], us)})
+		return "ok"
 	case "create":
 		v, err := b.st.Create(c, kvs.Record{Key: w[1], Value: kvVal(w[2]), ExpiresAt: kvExp(w[3])})
 		if err == nil {
@@ -321,6 +327,10 @@ func kvRunCase(ctx *Ctx, kind, tag string, ops []string) {
 		}
 		out := guard(func() string { return b.exec(ctx, w[1:]) })
 		ctx.R.Op(o, out)
+		for _, m := range b.pendingMon {
+			ctx.R.Quiet(m[0], m[1])
+		}
+		b.pendingMon = nil
 		if strings.HasPrefix(out, "ok") {
 			switch w[1] {
 			case "create", "put":
@@ -343,6 +353,47 @@ func kvRunCase(ctx *Ctx, kind, tag string, ops []string) {
 			return
 		}
 	}
+}
+
+// kvSubMs: every writing operation with ExpiresAt = now + {1µs, 400µs, 999µs}; 5 ms later the record must be
+// absent for Get and Create must succeed (op `subms <write kind> <µs>`, executed by kvBackend.exec).
+func kvSubMs(ctx *Ctx) {
+	for _, wr := range []string{"put", "create", "putmany", "cas"} {
+		for _, d := range []int{1, 400, 999} {
+			kvRunCase(ctx, "redis", "subms", []string{fmt.Sprintf("0 subms %s %d", wr, d)})
+		}
+	}
+}
+
+func (b *kvBackend) subms(wr string, us int) string {
+	bg := context.Background()
+	d := time.Duration(us) * time.Microsecond
+	exp := kvBase.Add(time.Duration(b.now)*time.Millisecond + d)
+	var err error
+	switch wr {
+	case "put":
+		_, err = b.st.Put(bg, kvs.Record{Key: "k", Value: []byte("x"), ExpiresAt: &exp})
+	case "create":
+		_, err = b.st.Create(bg, kvs.Record{Key: "k", Value: []byte("x"), ExpiresAt: &exp})
+	case "putmany":
+		err = b.st.PutMany(bg, []kvs.Record{{Key: "k", Value: []byte("x"), ExpiresAt: &exp}, {Key: "j", Value: []byte("y")}})
+	case "cas":
+		var r kvs.Record
+		if r, err = b.st.Put(bg, kvs.Record{Key: "k", Value: []byte("x")}); err == nil {
+			_, err = b.st.CasByVersion(bg, kvs.Record{Key: "k", Value: []byte("z"), Version: r.Version, ExpiresAt: &exp})
+		}
+	}
+	if err != nil {
+		return "the write failed: " + err.Error()
+	}
+	b.advanceTo(b.now + 5)
+	if _, gerr := b.st.Get(bg, "k"); !errors.Is(gerr, gerrors.ErrNotExist) {
+		return fmt.Sprintf("5 ms after a %s with ExpiresAt = now+%v the record is still returned by Get (err=%v)", wr, d, gerr)
+	}
+	if _, cerr := b.st.Create(bg, kvs.Record{Key: "k", Value: []byte("n")}); cerr != nil {
+		return fmt.Sprintf("5 ms after a %s with ExpiresAt = now+%v Create on the key fails: %v", wr, d, cerr)
+	}
+	return "ok"
 }
 
 func kvExpInt(s string) int {
@@ -538,6 +589,12 @@ func runKv(ctx *Ctx, kind string) {
 		for c := 0; c < n; c++ {
 			kvRunCase(ctx, kind, "", kvGen(ctx, ctx.Rnd.Range(5, 60), false, keys))
 		}
+	}
+	if kind == "redis" {
+		// sub-millisecond expiries (Go-side monitor only: the model's clock ticks in whole milliseconds).  Redis
+		// keeps TTLs in milliseconds and a TTL of 0 means "no TTL": a record written with an expiry less than
+		// 1 ms ahead must still be gone once the expiry has passed.
+		kvSubMs(ctx)
 	}
 	if kind == "redis" && ctx.Focus != "C06" {
 		// keys with a leading '/' (known finding KF-2: aliased by rKey)
